@@ -436,3 +436,47 @@ def receiver_not_mutated(qualname, mutators=("sample", "update_outcomes", "inser
             out.append(_ob(qualname, "receiver-read-only@L%d" % s.lineno, False, s.lineno, "`%s` calls a mutating method on an object reached from self (not from the fresh copy)" % ast.unparse(s)[:90]))
     out.append(_ob(qualname, "receiver-read-only:frame", True, None, "stores and mutating calls checked; fresh copies: %s" % sorted(fresh)))
     return out
+
+
+# ------------------------------------------------------------------------------------------------ further pattern clauses
+def attribute_assigned_from(qualname, attr, expected_expr, note=""):
+    """`self.<attr> = <expected expression>` is the only assignment to that attribute in the function (ownership on construction)"""
+    fi = source.lookup(qualname)
+    assigns = [s for s in ast.walk(fi.node) if isinstance(s, ast.Assign) and any(isinstance(t, ast.Attribute) and isinstance(t.value, ast.Name) and t.value.id == "self" and t.attr == attr for t in s.targets)]
+    want = ast.dump(ast.parse(expected_expr, mode="eval").body)
+    ok = len(assigns) == 1 and ast.dump(assigns[0].value) == want
+    return [_ob(qualname, "stores-own-copy:self.%s" % attr, ok, assigns[0].lineno if assigns else fi.lineno, "expected `self.%s = %s`; found %s. %s" % (attr, expected_expr, [ast.unparse(a.value) for a in assigns], note))]
+
+
+def call_present_after(qualname, call_text, after_kind="Try", note=""):
+    """a top-level statement `<call_text>` occurs in the function body after the (last) top-level statement of the given kind"""
+    fi = source.lookup(qualname)
+    body = fi.body()
+    idx = max([i for i, s in enumerate(body) if type(s).__name__ == after_kind] or [-1])
+    want = ast.dump(ast.parse(call_text, mode="eval").body)
+    found = [s for s in body[idx + 1:] if isinstance(s, ast.Expr) and ast.dump(s.value) == want]
+    return [_ob(qualname, "calls:%s" % call_text[:50], bool(found) and idx >= 0, found[0].lineno if found else fi.lineno, "statement `%s` after the try/finally. %s" % (call_text, note))]
+
+
+def augassign_divisor_matches_generator(qualname, target="vals"):
+    """an average is a sum over a collection divided by the size of THAT collection:  `t = sum(... for x in C)` directly
+    followed by `t /= len(D)` requires D to be C"""
+    fi = source.lookup(qualname)
+    out = []
+    n = 0
+    for node in ast.walk(fi.node):
+        body = getattr(node, "body", None)
+        if not isinstance(body, list):
+            continue
+        for blk in (body, getattr(node, "orelse", []) or []):
+            for a, b in zip(blk, blk[1:]):
+                if (isinstance(a, ast.Assign) and len(a.targets) == 1 and isinstance(a.targets[0], ast.Name) and a.targets[0].id == target and isinstance(a.value, ast.Call) and isinstance(a.value.func, ast.Name) and a.value.func.id == "sum"
+                        and a.value.args and isinstance(a.value.args[0], ast.GeneratorExp) and isinstance(b, ast.AugAssign) and isinstance(b.op, ast.Div) and isinstance(b.target, ast.Name) and b.target.id == target
+                        and isinstance(b.value, ast.Call) and isinstance(b.value.func, ast.Name) and b.value.func.id == "len"):
+                    n += 1
+                    coll = ast.unparse(a.value.args[0].generators[0].iter)
+                    div = ast.unparse(b.value.args[0])
+                    out.append(_ob(qualname, "average-divides-by-its-own-parts@L%d" % b.lineno, coll == div, b.lineno, "sum over `%s` divided by len(`%s`)" % (coll, div)))
+    if n == 0:
+        out.append(_ob(qualname, "average-divides-by-its-own-parts:none-found", False, fi.lineno, "no `x = sum(... for .. in C); x /= len(C)` pattern found"))
+    return out
